@@ -65,6 +65,15 @@ def replay(pid, path):
         print("FAIL fuzz input: %s" % msg)
         print("VIOLATION property=%s replay=%s" % (pid, os.path.abspath(path)))
         return 1
+    if isinstance(rec, dict) and "statemachine" in rec:
+        from vlib import stateful_sym
+        msg = stateful_sym.execute(rec["statemachine"])
+        if msg:
+            print("FAIL state machine history: %s" % msg)
+            print("VIOLATION property=%s replay=%s" % (pid, os.path.abspath(path)))
+            return 1
+        print("replay ok: the logged history gives the same answers as fresh analysers")
+        return 0
     desc = rec["descriptor"] if "descriptor" in rec else rec
     out = mod.run_case(desc)
     known = load_known(pid)
